@@ -14,12 +14,22 @@ thread_local! {
     static DEPTH: Cell<u32> = const { Cell::new(0) };
     static MAX_DEPTH: Cell<u32> = const { Cell::new(0) };
     static MAX_ALLOC: Cell<usize> = const { Cell::new(usize::MAX) };
+    static MEM_PROBE: Cell<Option<fn() -> usize>> = const { Cell::new(None) };
+    static MAX_MEM: Cell<usize> = const { Cell::new(usize::MAX) };
     static TRIPPED: Cell<u8> = const { Cell::new(0) };
 }
 
 pub const FUEL_MESSAGE: &str = "verif: fuel";
 pub const DEPTH_MESSAGE: &str = "verif: depth";
 pub const ALLOC_MESSAGE: &str = "verif: alloc";
+pub const MEM_MESSAGE: &str = "verif: memory";
+
+/// Let the budget also watch the thread's live heap: `probe` returns the bytes currently
+/// allocated by this thread; once it exceeds `max_bytes` every step fails (outcome 4).
+pub fn set_memory_probe(probe: fn() -> usize, max_bytes: usize) {
+    MEM_PROBE.with(|c| c.set(Some(probe)));
+    MAX_MEM.with(|c| c.set(max_bytes));
+}
 
 /// Arm the budget on the current thread.
 pub fn arm(fuel: u64, max_depth: u32, max_alloc: usize) {
@@ -36,7 +46,7 @@ pub fn disarm() {
     DEPTH.with(|c| c.set(0));
 }
 
-/// 0 = never tripped since `arm`, 1 = fuel, 2 = depth, 3 = alloc.
+/// 0 = never tripped since `arm`, 1 = fuel, 2 = depth, 3 = alloc, 4 = memory.
 pub fn tripped() -> u8 {
     TRIPPED.with(|c| c.get())
 }
@@ -67,6 +77,12 @@ pub fn enter() -> Result<DepthGuard, SchemeError> {
         return Err(ErrorData::Logic(LogicError::Extension(FUEL_MESSAGE.to_string())).no_locate());
     }
     FUEL.with(|c| c.set(fuel - 1));
+    if let Some(probe) = MEM_PROBE.with(|c| c.get()) {
+        if probe() > MAX_MEM.with(|c| c.get()) {
+            TRIPPED.with(|c| c.set(4));
+            return Err(ErrorData::Logic(LogicError::Extension(MEM_MESSAGE.to_string())).no_locate());
+        }
+    }
     let depth = DEPTH.with(|c| c.get());
     if depth >= MAX_DEPTH.with(|c| c.get()) {
         TRIPPED.with(|c| c.set(2));
@@ -76,11 +92,43 @@ pub fn enter() -> Result<DepthGuard, SchemeError> {
     Ok(DepthGuard(true))
 }
 
-/// A request to allocate `n` elements at once.
-pub fn alloc(n: usize) -> Result<(), SchemeError> {
-    if ARMED.with(|c| c.get()) && n > MAX_ALLOC.with(|c| c.get()) {
+/// One step of a loop that is not an evaluation step (template instantiation): consumes fuel
+/// and checks the memory probe, without taking a level of depth.
+pub fn step() -> Result<(), SchemeError> {
+    enter().map(|_guard| ())
+}
+
+/// A request to allocate `n` copies of a value of `weight` cells at once; the allowance
+/// given to `arm` is shared by all requests until the next `arm`.
+pub fn alloc(n: usize, weight: usize) -> Result<(), SchemeError> {
+    if !ARMED.with(|c| c.get()) {
+        return Ok(());
+    }
+    let want = n.saturating_mul(weight.max(1));
+    let left = MAX_ALLOC.with(|c| c.get());
+    if want > left {
         TRIPPED.with(|c| c.set(3));
         return Err(ErrorData::Logic(LogicError::Extension(ALLOC_MESSAGE.to_string())).no_locate());
     }
+    MAX_ALLOC.with(|c| c.set(left - want));
     Ok(())
+}
+
+/// Rough size of a value in cells (elements reachable through vectors and pairs, capped).
+pub fn weight<R: crate::values::RealNumberInternalTrait>(value: &crate::values::Value<R>) -> usize {
+    fn go<R: crate::values::RealNumberInternalTrait>(v: &crate::values::Value<R>, budget: &mut usize) -> usize {
+        use crate::values::Value;
+        if *budget == 0 {
+            return 1;
+        }
+        *budget -= 1;
+        match v {
+            Value::Vector(r) => 1 + r.as_ref().iter().map(|i| go(i, budget)).sum::<usize>(),
+            Value::Pair(p) => 1 + p.iter().map(|i| go(i, budget)).sum::<usize>(),
+            Value::String(s) => 1 + s.len() / 8,
+            _ => 1,
+        }
+    }
+    let mut budget = 100_000;
+    go(value, &mut budget)
 }
